@@ -329,3 +329,18 @@ package html
 //@   oncall HasNestedNode do has = result; nAsk = nAsk + 1
 //@   loop 1 iter asks-each-and-goes-on-only-after-no: nAsk == old(nAsk) + 1 && !has
 //@   ensures owner-contains-the-node: implies(result != nil, has)
+
+// C17: the list of places. In hide mode the text of a place is read only after
+// the owner of the node the place hangs on was looked up - for exactly this
+// node - and turned out to be nobody, or somebody who is not living.
+//@ func Publisher.Places
+//@   props C17
+//@   ghost lastNode iface
+//@   ghost owner int = 0
+//@   ghost ownerLiving bool = false
+//@   opaque individualForNode, IndividualNode.IsLiving, prettyPlaceName, PlaceNode.Country, Document.Places
+//@   oncall individualForNode check about-the-node-of-this-place: arg0 == publisher.doc && arg1 == node
+//@   oncall individualForNode do lastNode = arg1; owner = result; ownerLiving = false
+//@   oncall IndividualNode.IsLiving check of-the-owner: arg0 == owner
+//@   oncall IndividualNode.IsLiving do ownerLiving = result
+//@   oncall SimpleNode.Value check place-of-nobody-living: publisher.options.LivingVisibility != LivingVisibilityHide || (lastNode == node && (owner == nil || !ownerLiving))
